@@ -1022,12 +1022,11 @@ impl Entry {
             )
         };
 
+        // Note: replace_with() would return the green node of the whole enclosing field
         let new_root = SyntaxNode::new_root_mut(
-            self.0.replace_with(
-                self.0
-                    .green()
-                    .splice_children(position..position, new_children),
-            ),
+            self.0
+                .green()
+                .splice_children(position..position, new_children),
         );
 
         if let Some(parent) = self.0.parent() {
